@@ -78,6 +78,8 @@ type opaDecision struct {
 	Roles []string
 	Sub   string
 	Errs  []string
+	// Sparse: a denial is sent as an undefined decision (no result at all)
+	Sparse bool
 }
 
 type opaStub struct {
@@ -115,8 +117,28 @@ func (o *opaStub) RoundTrip(req *http.Request) (*http.Response, error) {
 		<-req.Context().Done()
 		return nil, req.Context().Err()
 	}
-	res := map[string]any{"allow": d.Allow, "sub": d.Sub, "roles": d.Roles, "errors": d.Errs}
-	b, _ := json.Marshal(map[string]any{"result": res, "decision_id": fmt.Sprintf("d%d", o.calls)})
+	// like a real policy engine, leave out what is empty: an undefined
+	// decision is "{}", a denial carries no roles, an allow no errors
+	res := map[string]any{}
+	if d.Allow {
+		res["allow"] = true
+	} else if len(d.Errs) > 0 && !d.Sparse {
+		res["allow"] = false
+	}
+	if d.Sub != "" {
+		res["sub"] = d.Sub
+	}
+	if len(d.Roles) > 0 {
+		res["roles"] = d.Roles
+	}
+	if len(d.Errs) > 0 && !d.Sparse {
+		res["errors"] = d.Errs
+	}
+	doc := map[string]any{"decision_id": fmt.Sprintf("d%d", o.calls)}
+	if len(res) > 0 {
+		doc["result"] = res
+	}
+	b, _ := json.Marshal(doc)
 	return mk(200, string(b)), nil
 }
 
@@ -225,6 +247,7 @@ func c04Run(r *core.Run) {
 		tokenRoles := map[string][]string{"tok-alice": pickRoles(t, "alice-roles"), "tok-bob": pickRoles(t, "bob-roles")}
 		var opa *opaStub
 		opaFault := ""
+		sparseDeny := false
 		if policyMode {
 			cfg.Server.PolicyURL = "http://opa.sim/v1/data/relic/authz"
 			opa = &opaStub{w: w, decide: func(tok, fp string) opaDecision {
@@ -242,7 +265,7 @@ func c04Run(r *core.Run) {
 						return opaDecision{Allow: true, Roles: roles, Sub: c}
 					}
 				}
-				return opaDecision{Errs: []string{"not recognised"}}
+				return opaDecision{Errs: []string{"not recognised"}, Sparse: sparseDeny}
 			}}
 			old := http.DefaultTransport
 			http.DefaultTransport = opa
@@ -298,6 +321,10 @@ func c04Run(r *core.Run) {
 				}
 			} else {
 				q.Peer = core.Pick(t, "peer", "192.0.2.9:1234", "11.0.0.1:80", "172.16.0.3:4000")
+				if proxyMode == "one" && t.Chance(1, 2, "peer-near-proxy") {
+					// only 10.0.0.1 itself is trusted: its neighbours are not
+					q.Peer = core.Pick(t, "near-peer", "10.0.0.2:777", "10.200.3.4:999", "10.0.1.1:80")
+				}
 				if t.Chance(1, 2, "spoof") {
 					// identity-bearing headers from a peer that is no trusted proxy
 					q.XFF = []string{core.Pick(t, "spoof-xff", "10.0.0.1", "127.0.0.1", "198.51.100.7, 10.0.0.1")}
@@ -312,6 +339,7 @@ func c04Run(r *core.Run) {
 				q.BadParam = core.Pick(t, "bad-param-kind", "nofilename", "badsigtype", "baddigest", "nokey")
 			}
 			opaFault = ""
+			sparseDeny = policyMode && t.Chance(1, 2, "opa-sparse-deny")
 			if policyMode && t.Chance(1, 6, "opa-fault") {
 				opaFault = core.Pick(t, "opa-fault-kind", "http500", "garbage", "reset", "stall")
 				r.Fault("policy-service-" + opaFault)
